@@ -22,10 +22,15 @@ Expect(s, ev) ==
          LET good == Len(ev.key) = 16 /\ ev.noncesize >= 1 /\ ev.tagsize >= 12 /\ ev.tagsize <= 16
              ok1 == ev.panic = "" /\ ((ev.err = "") <=> good)
              ok2 == (good /\ ev.err = "") => (ev.ns = ev.noncesize /\ ev.ov = ev.tagsize)
+             \* dispatch: where the accelerated path is available and asked for, the AEAD handed out IS the accelerated
+             \* one (a cipher that no longer offers its GCM to crypto/cipher silently gets the library's generic,
+             \* table-driven mode: same outputs, different - data-dependent - memory accesses)
+             ok3 == (good /\ ev.err = "" /\ ev.path = "asm" /\ ev.asm_available) => ev.kind = "*sm4.sm4GcmAsm"
          IN [st |-> IF good /\ ev.err = ""
                     THEN Put(s, ev.h, [rk |-> S4!RoundKeys(ev.key), ts |-> ev.tagsize])
                     ELSE s,
-             ok |-> ok1 /\ ok2 /\ ev.key_after = ev.key, why |-> "aead: construction"]
+             ok |-> ok1 /\ ok2 /\ ok3 /\ ev.key_after = ev.key,
+             why |-> IF ok1 /\ ok2 /\ ~ok3 THEN "aead: accelerated path available but not selected" ELSE "aead: construction"]
     [] ev.op = "gcm.seal" ->
          LET o == s[ev.h]
              exp == Prefix(ev) \o G!Seal(o.rk, ev.nonce, ev.aad, ev.pt, o.ts)
